@@ -1,7 +1,7 @@
 // C11 witness search: deleting / recreating a layer over generated trees with every symlink kind; canary tree beside the layers dir.
 use crate::Report;
 use libcnb::build::BuildContext;
-use libcnb::data::layer_name;
+
 use libcnb::generic::{GenericError, GenericMetadata, GenericPlatform};
 use libcnb::layer::{CachedLayerDefinition, InvalidMetadataAction, RestoredLayerAction, UncachedLayerDefinition};
 use libcnb::{Buildpack, Env, Target};
